@@ -637,7 +637,7 @@ class PathCtx:
         self.trace = []          # decisions taken (bool), including forced ones
         self.forks = []          # new prefixes to explore
         self.solver = z3.Solver()
-        self.solver.set("timeout", limits.get("timeout_ms", 20000))
+        self.solver.set("timeout", limits.get("timeout_ms", 60000))
         self.stats = stats
         self.limits = limits
         self.side = []           # no-overflow side obligations
